@@ -125,7 +125,6 @@ func dedupeSlice[S ~[]E, E any](x S, cmp func(a, b E) bool) S {
 // will dump the error's stack trace if necessary.
 func serializeAttrs(pc *PrintCtx, kvps Attrs) (err error) { //nolint:revive
 	prefix := pc.prefix
-	inGroupedMode := pc.inGroupedMode
 
 	if pc.dedupeAttrs {
 		slices.SortFunc(kvps, func(a, b Attr) int {
@@ -172,9 +171,10 @@ func serializeAttrs(pc *PrintCtx, kvps Attrs) (err error) { //nolint:revive
 			ct.echoColorAndBg(pc, pc.clr, pc.bg)
 		}
 
-		if !inGroupedMode {
-			_, inGroupedMode = v.(groupedValue)
-		}
+		// whether this very element is a group. It must be decided per
+		// element: a flag kept across iterations made every attribute
+		// sorted after a group lose its key.
+		_, inGroupedMode := v.(groupedValue)
 
 		key := v.Key()
 		if inGroupedMode && !pc.jsonMode && pc.valueStringer == nil {
